@@ -79,8 +79,16 @@ def chunk_encoder_check(ch: Checker, rule: str) -> None:
                 for c in walk_no_nested(st):
                     if isinstance(c, ast.Call) and isinstance(c.func, ast.Attribute) and c.func.attr == 'append' and norm(c.func.value) == listname and len(c.args) == 1:
                         elems.append((i, c.args[0]))
+                    elif isinstance(c, ast.Call) and isinstance(c.func, ast.Attribute) and c.func.attr == 'extend' and norm(c.func.value) == listname and len(c.args) == 1 and \
+                            isinstance(c.args[0], (ast.Tuple, ast.List)) and not any(isinstance(x, ast.Starred) for x in c.args[0].elts):
+                        elems.extend((i, x) for x in c.args[0].elts)        # extend with a display = the appends in order
                     elif isinstance(c, ast.Call) and isinstance(c.func, ast.Attribute) and c.func.attr in ('extend', 'insert') and norm(c.func.value) == listname:
                         bad = ('chunk list built with %s: order of emitted parts not decided' % c.func.attr, p.describe())
+                if isinstance(st, ast.AugAssign) and isinstance(st.op, ast.Add) and norm(st.target) == listname:
+                    if isinstance(st.value, (ast.Tuple, ast.List)) and not any(isinstance(x, ast.Starred) for x in st.value.elts):
+                        elems.extend((i, x) for x in st.value.elts)
+                    else:
+                        bad = ('chunk list grown with += %s: order of emitted parts not decided' % norm(st.value)[:40], p.describe())
             for k, (i, e) in enumerate(elems):
                 items.append(sym.value(e, i))
                 if k < len(elems) - 1:
